@@ -256,6 +256,12 @@ static void drv_step(struct cmd *c)
 		MPT_STRUCT(slice) sl = MPT_SLICE_INIT;
 		size_t nblk = drv_uint(c, "nblk", 0), esz = drv_uint(c, "esz", 1);
 		ssize_t r;
+		/* a slice window lies inside the data (caller's duty) */
+		if (drv_uint(c, "off", 0) + drv_uint(c, "len", 0) > used0) {
+			answer(c, "skipped", 0, 0, size0, used0, 0);
+			free(data);
+			return;
+		}
 		sl._a._buf = ar->_buf;   /* the handle is the slice's array */
 		sl._off = drv_uint(c, "off", 0);
 		sl._len = drv_uint(c, "len", 0);
